@@ -436,7 +436,8 @@ fn run_case(ctx: &Ctx, case: &Case, coords: &dyn Fn() -> J, rep: &mut Report) {
             fp = fnv64_more(fp, &c.bytes);
         }
         let (src, _data, delivered) = crate::sut::CountRead::new(&all);
-        let mut rd = H263Reader::from_source(src);
+        let chunk = [usize::MAX, 1, 2, 5, 4096][(fp % 5) as usize];
+        let mut rd = H263Reader::from_source(src.with_chunk(chunk));
         for (k, c) in case.calls.iter().enumerate() {
             // domain guard at the position the next header will really be read from
             let at = crate::sut::abs_pos(&rd, &delivered);
